@@ -49,6 +49,13 @@ impl Entry {
     fn v6_target(self) -> bool {
         matches!(self, Entry::Socks5V6 | Entry::HttpV6)
     }
+    pub fn is_socks5(self) -> bool {
+        matches!(self, Entry::Socks5V4 | Entry::Socks5V6 | Entry::Socks5Dom)
+    }
+    /// the entry point kinds that begin with a handshake of the local client (everything but the fixed remotes)
+    pub fn has_handshake(self) -> bool {
+        !matches!(self, Entry::Tcp | Entry::Uds)
+    }
 }
 
 #[derive(Clone, Copy, Debug, PartialEq, Eq)]
@@ -149,6 +156,15 @@ pub struct TcpScn {
     pub rcvbuf: usize,
     /// late modes: the late reader's pause after every read of at most 32 KiB (0 = reads at full speed)
     pub pace_ms: u64,
+    /// optimistic data: the local client writes the first `early` bytes of its upload (all of it when the upload
+    /// is shorter) IN THE SAME WRITE as the last message of its handshake (SOCKS4/4a: the request, SOCKS5: the
+    /// request, HTTP: the CONNECT header), i.e. before it has read the proxy's reply; then it reads the replies
+    /// and goes on with the rest of its script (which sends only what is left).  0 = the client waits for the
+    /// reply before it sends anything.  On a fixed remote (no handshake) the bytes are simply written first.
+    pub early: usize,
+    /// SOCKS5 only: the greeting, the request (and the early bytes) go out in ONE write, the method selection
+    /// and the reply are read afterwards; `false` = the greeting alone, method selection awaited, then the request
+    pub hello_joined: bool,
 }
 
 impl TcpScn {
@@ -160,14 +176,29 @@ impl TcpScn {
         if self.mode.is_late() {
             l.push_str(&format!(" rcvbuf={} pace={}", self.rcvbuf, self.pace_ms));
         }
+        if self.early > 0 {
+            l.push_str(&format!(" early={}", self.early));
+        }
+        if self.hello_joined {
+            l.push_str(" hello=joined");
+        }
         l
+    }
+    /// the optimistic-data family: the client does not wait for (all of) the proxy's replies before it goes on
+    pub fn is_early(&self) -> bool {
+        self.early > 0 || self.hello_joined
+    }
+    /// how many bytes of the upload travel with the handshake
+    pub fn early_bytes(&self) -> usize {
+        let (c, _) = self.scripts();
+        self.early.min(c.send.len())
     }
     pub fn parse(line: &str) -> Option<Self> {
         let mut t = line.split_whitespace();
         if t.next()? != "tcp" {
             return None;
         }
-        let mut s = TcpScn { entry: Entry::Tcp, mode: Mode::Echo, up: 0, down: 0, upc: Chunk::Whole, downc: Chunk::Whole, slow_ms: 0, seed: 0, rcvbuf: 0, pace_ms: 0 };
+        let mut s = TcpScn { entry: Entry::Tcp, mode: Mode::Echo, up: 0, down: 0, upc: Chunk::Whole, downc: Chunk::Whole, slow_ms: 0, seed: 0, rcvbuf: 0, pace_ms: 0, early: 0, hello_joined: false };
         for kv in t {
             let (k, v) = kv.split_once('=')?;
             match k {
@@ -181,6 +212,14 @@ impl TcpScn {
                 "seed" => s.seed = v.parse().ok()?,
                 "rcvbuf" => s.rcvbuf = v.parse().ok()?,
                 "pace" => s.pace_ms = v.parse().ok()?,
+                "early" => s.early = v.parse().ok()?,
+                "hello" => {
+                    s.hello_joined = match v {
+                        "joined" => true,
+                        "alone" => false,
+                        _ => return None,
+                    }
+                }
                 _ => return None,
             }
         }
@@ -272,9 +311,11 @@ async fn w(s: &mut BoxStream, b: Vec<u8>) -> Result<(), String> {
     }
 }
 
-async fn handshake(entry: Entry, s: &mut BoxStream, ip4: [u8; 4], port: u16) -> Result<String, String> {
+/// What a conforming client sends in the entry point's handshake, message by message (SOCKS5: greeting, request;
+/// the fixed remotes: nothing).
+pub fn handshake_msgs(entry: Entry, ip4: [u8; 4], port: u16) -> Vec<Vec<u8>> {
     match entry {
-        Entry::Tcp | Entry::Uds => Ok(String::new()),
+        Entry::Tcp | Entry::Uds => vec![],
         Entry::Socks4 | Entry::Socks4a => {
             let mut req = vec![4u8, 1];
             req.extend_from_slice(&port.to_be_bytes());
@@ -286,19 +327,9 @@ async fn handshake(entry: Entry, s: &mut BoxStream, ip4: [u8; 4], port: u16) -> 
                 req.extend_from_slice(b"verif\0");
                 req.extend_from_slice(b"localhost\0");
             }
-            w(s, req).await?;
-            let rep = read_exact_t(s, 8, "the SOCKS4 reply").await?;
-            if rep[0] != 0 || rep[1] != 90 {
-                return Err(format!("SOCKS4 reply {}", pvhf::hex(&rep)));
-            }
-            Ok(format!("socks4 reply {}", pvhf::hex(&rep)))
+            vec![req]
         }
         Entry::Socks5V4 | Entry::Socks5V6 | Entry::Socks5Dom => {
-            w(s, vec![5, 1, 0]).await?;
-            let m = read_exact_t(s, 2, "the SOCKS5 method selection").await?;
-            if m != [5, 0] {
-                return Err(format!("SOCKS5 method selection {}", pvhf::hex(&m)));
-            }
             let mut req = vec![5u8, 1, 0];
             match entry {
                 Entry::Socks5V4 => {
@@ -316,7 +347,64 @@ async fn handshake(entry: Entry, s: &mut BoxStream, ip4: [u8; 4], port: u16) -> 
                 }
             }
             req.extend_from_slice(&port.to_be_bytes());
-            w(s, req).await?;
+            vec![vec![5, 1, 0], req]
+        }
+        Entry::HttpV4 | Entry::HttpV6 | Entry::HttpDom => {
+            let host = match entry {
+                Entry::HttpV4 => format!("{}.{}.{}.{}:{port}", ip4[0], ip4[1], ip4[2], ip4[3]),
+                Entry::HttpV6 => format!("[::1]:{port}"),
+                _ => format!("localhost:{port}"),
+            };
+            vec![format!("CONNECT {host} HTTP/1.1\r\nHost: {host}\r\n\r\n").into_bytes()]
+        }
+    }
+}
+
+/// The length of the client's write that carries the early bytes, without them (what shares the proxy's
+/// negotiation buffer with the payload).
+pub fn last_handshake_write_len(entry: Entry, joined: bool) -> usize {
+    let m = handshake_msgs(entry, [127, 0, 0, 1], 40_000);
+    if joined { m.iter().map(Vec::len).sum() } else { m.last().map_or(0, Vec::len) }
+}
+
+/// `early`: payload bytes that go out in the same write as the last handshake message, before any reply to it
+/// has been read; `joined` (SOCKS5): greeting and request in one write as well.
+async fn handshake(entry: Entry, s: &mut BoxStream, ip4: [u8; 4], port: u16, early: &[u8], joined: bool) -> Result<String, String> {
+    let mut msgs = handshake_msgs(entry, ip4, port);
+    if joined && msgs.len() > 1 {
+        msgs = vec![msgs.concat()];
+    }
+    match msgs.last_mut() {
+        Some(last) => last.extend_from_slice(early),
+        None if !early.is_empty() => msgs.push(early.to_vec()),
+        None => {}
+    }
+    let mut msgs = msgs.into_iter();
+    match entry {
+        Entry::Tcp | Entry::Uds => {
+            for m in msgs {
+                w(s, m).await?;
+            }
+            Ok(String::new())
+        }
+        Entry::Socks4 | Entry::Socks4a => {
+            w(s, msgs.next().unwrap_or_default()).await?;
+            let rep = read_exact_t(s, 8, "the SOCKS4 reply").await?;
+            if rep[0] != 0 || rep[1] != 90 {
+                return Err(format!("SOCKS4 reply {}", pvhf::hex(&rep)));
+            }
+            Ok(format!("socks4 reply {}", pvhf::hex(&rep)))
+        }
+        Entry::Socks5V4 | Entry::Socks5V6 | Entry::Socks5Dom => {
+            // either the greeting alone, or greeting + request (+ early bytes) in one write
+            w(s, msgs.next().unwrap_or_default()).await?;
+            let m = read_exact_t(s, 2, "the SOCKS5 method selection").await?;
+            if m != [5, 0] {
+                return Err(format!("SOCKS5 method selection {}", pvhf::hex(&m)));
+            }
+            if let Some(req) = msgs.next() {
+                w(s, req).await?;
+            }
             let head = read_exact_t(s, 4, "the SOCKS5 reply").await?;
             let alen = match head[3] {
                 1 => 4,
@@ -331,12 +419,7 @@ async fn handshake(entry: Entry, s: &mut BoxStream, ip4: [u8; 4], port: u16) -> 
             Ok(format!("socks5 reply {}{}", pvhf::hex(&head), pvhf::hex(&rest)))
         }
         Entry::HttpV4 | Entry::HttpV6 | Entry::HttpDom => {
-            let host = match entry {
-                Entry::HttpV4 => format!("{}.{}.{}.{}:{port}", ip4[0], ip4[1], ip4[2], ip4[3]),
-                Entry::HttpV6 => format!("[::1]:{port}"),
-                _ => format!("localhost:{port}"),
-            };
-            w(s, format!("CONNECT {host} HTTP/1.1\r\nHost: {host}\r\n\r\n").into_bytes()).await?;
+            w(s, msgs.next().unwrap_or_default()).await?;
             let mut head = vec![];
             while !head.ends_with(b"\r\n\r\n") {
                 if head.len() > 4096 {
@@ -358,7 +441,10 @@ async fn handshake(entry: Entry, s: &mut BoxStream, ip4: [u8; 4], port: u16) -> 
 pub async fn run_conn(w: Arc<World>, slot: usize, sc: TcpScn) -> ConnObs {
     let t0 = std::time::Instant::now();
     let mut obs = ConnObs::default();
-    let (cscript, tscript) = sc.scripts();
+    let (mut cscript, tscript) = sc.scripts();
+    // optimistic data: these bytes leave with the handshake, the script sends only what is left
+    let n_early = sc.early.min(cscript.send.len());
+    let early: Vec<u8> = cscript.send.drain(..n_early).collect();
     let refuse = sc.mode == Mode::Refuse;
     let mut rx = None;
     if !refuse {
@@ -411,7 +497,7 @@ pub async fn run_conn(w: Arc<World>, slot: usize, sc: TcpScn) -> ConnObs {
             return obs;
         }
     };
-    match handshake(sc.entry, &mut stream, [127, 0, 0, 1], target_port).await {
+    match handshake(sc.entry, &mut stream, [127, 0, 0, 1], target_port, &early, sc.hello_joined && sc.entry.is_socks5()).await {
         Ok(t) => obs.handshake = t,
         Err(e) => {
             obs.handshake_fail = Some(e);
@@ -433,6 +519,7 @@ pub async fn run_conn(w: Arc<World>, slot: usize, sc: TcpScn) -> ConnObs {
         }
     }
     obs.client = run_side(stream, &cscript).await;
+    obs.client.sent += n_early;
     if let Some(r) = rx {
         match tokio::time::timeout(step() + Duration::from_secs(2) + sc.late_allowance(), r).await {
             Ok(Ok(t)) => {
